@@ -45,7 +45,11 @@ def oracle(p):
     bad = []
     frames = _conn.new_frames(p)
     prev = None
+    peer_parity = 0 if p['cfg']['client'] else 1
+    peer_max = 0      # highest id of the peer's parity that ever had a stream object: tracked here, not read from the library's watermark
     for i, (op, parts) in enumerate(zip(p['ops'], p['parts'])):
+        ids = [e[0] for e in parts[8]] + [s for s, cb in parts[4][1]]
+        peer_max = max([peer_max] + [x for x in ids if x % 2 == peer_parity and x > 0])
         if op[0] == 'Receive' and prev is not None:
             res = parts[0]
             goaways = [fr for fr in frames[i] if fr[0] == 7]
@@ -57,9 +61,9 @@ def oracle(p):
                     g = goaways[0]
                     if g[2] != code:
                         bad.append({'rule': 'GOAWAY error code differs from the exception code', 'step': i, 'detail': {'goaway': g, 'exception': res}})
-                    if g[1] != parts[5][0]:
+                    if g[1] != parts[5][0] or (g[1] != peer_max and len(parts[4][1]) < 90):     # (the closed-stream memory is capped at 100)
                         bad.append({'rule': 'GOAWAY last_stream_id is not the highest stream id the peer opened', 'step': i,
-                                    'detail': {'goaway': g, 'highest_inbound': parts[5][0]}})
+                                    'detail': {'goaway': g, 'highest_inbound': parts[5][0], 'highest_peer_stream_seen': peer_max}})
                     if frames[i] and frames[i][-1][0] != 7:
                         bad.append({'rule': 'frames were emitted after the GOAWAY of a connection error', 'step': i, 'detail': frames[i][-2:]})
                 if parts[3] != 3:
